@@ -3,7 +3,7 @@
 // batch_norm,layer_norm,instance_norm,group_norm,linear,bilinear,pairwise_distance,cosine_similarity}.hpp.  Only the raw C arrays of
 // the data headers are read; no nmtools routine is called.
 //   g++ -std=c++17 -O0 -DDOCTEST_CONFIG_IMPLEMENT -I/repo/include -I/verif/engine -w c17_upstream_literals.cpp -o lit && ./lit   (~60 s compile)
-// Expected: ok=109 diff=2; the two DIFF lines are batch_norm case1/case2 whose literals are rounded to 4 decimals (|delta| < 5e-5).
+// Expected: ok=111 diff=0 (rtol 2e-6: float literals; batch_norm literals are rounded to 4 decimals and compared with rtol 1e-4).
 #include "nmtools/testing/data/array/conv1d.hpp"
 #include "nmtools/testing/data/array/conv2d.hpp"
 #include "nmtools/testing/data/array/pooling.hpp"
@@ -105,8 +105,8 @@ int main() {
 { NS(softmin,case3) chk("softmin.case3", ref::softmin(R(a::input), (long)a::dim), R(e::result), 2e-6); }
 { NS(softmin,case4) chk("softmin.case4", ref::softmin(R(a::input), (long)a::dim), R(e::result), 2e-6); }
 { NS(softmin,case5) chk("softmin.case5", ref::softmin(R(a::input), (long)a::dim), R(e::result), 2e-6); }
-{ NS(batch_norm,case1) chk("batch_norm.case1", ref::batch_norm(R(a::input), R(a::mean), R(a::var), R(a::weight), R(a::bias), 1e-5), R(e::result), 2e-6); }
-{ NS(batch_norm,case2) chk("batch_norm.case2", ref::batch_norm(R(a::input), R(a::mean), R(a::var), R(a::weight), R(a::bias), 1e-5), R(e::result), 2e-6); }
+{ NS(batch_norm,case1) chk("batch_norm.case1", ref::batch_norm(R(a::input), R(a::mean), R(a::var), R(a::weight), R(a::bias), 1e-5), R(e::result), 1e-4); }
+{ NS(batch_norm,case2) chk("batch_norm.case2", ref::batch_norm(R(a::input), R(a::mean), R(a::var), R(a::weight), R(a::bias), 1e-5), R(e::result), 1e-4); }
 { NS(layer_norm,case1) chk("layer_norm.case1", ref::layer_norm(R(a::input), R(a::weight), R(a::bias), 1e-5), R(e::result), 2e-6); }
 { NS(layer_norm,case2) chk("layer_norm.case2", ref::layer_norm(R(a::input), R(a::weight), R(a::bias), 1e-5), R(e::result), 2e-6); }
 { NS(layer_norm,case3) chk("layer_norm.case3", ref::layer_norm(R(a::input), R(a::weight), R(a::bias), 1e-5), R(e::result), 2e-6); }
